@@ -9,6 +9,8 @@ CONSTANTS
   TearDown = FALSE
   ReHandshakes = 1
   IgnoreReHandshakeWhileOpen = FALSE
+  SplitTicks = FALSE
+  NegativeElapsedIsDue = FALSE
 INVARIANTS C39_ReHandshakeConverges
 VIEW View
 CONSTRAINT Bound
